@@ -43,7 +43,7 @@ func (v JVal) MarshalJSON() ([]byte, error) {
 func quote(s string) []byte {
 	q, err := json.Marshal(s)
 	if err != nil {
-		panic(err)
+		fatal(err.Error())
 	}
 	return q
 }
@@ -83,7 +83,7 @@ func (v JVal) wire(b *bytes.Buffer) {
 		}
 		b.WriteString(`]]`)
 	default:
-		panic("JVal: bad kind " + v.K)
+		fatal("JVal: bad kind " + v.K)
 	}
 }
 
@@ -124,6 +124,50 @@ func (v JVal) render(b *bytes.Buffer) {
 			m.Val.render(b)
 		}
 		b.WriteByte('}')
+	}
+}
+
+// RenderSpaced writes the same document with insignificant blanks between the tokens.
+func (v JVal) RenderSpaced() []byte {
+	var b bytes.Buffer
+	v.renderSpaced(&b, 0)
+	return b.Bytes()
+}
+
+func (v JVal) renderSpaced(b *bytes.Buffer, depth int) {
+	ind := func(d int) {
+		b.WriteString("\r\n")
+		for i := 0; i < d; i++ {
+			b.WriteString("\t ")
+		}
+	}
+	switch v.K {
+	case "a":
+		b.WriteString("[ ")
+		for i, x := range v.A {
+			if i > 0 {
+				b.WriteString(" ,")
+			}
+			ind(depth + 1)
+			x.renderSpaced(b, depth+1)
+		}
+		ind(depth)
+		b.WriteByte(']')
+	case "o":
+		b.WriteString("{ ")
+		for i, m := range v.O {
+			if i > 0 {
+				b.WriteString(" ,")
+			}
+			ind(depth + 1)
+			b.Write(quote(m.Key))
+			b.WriteString(" :\t")
+			m.Val.renderSpaced(b, depth+1)
+		}
+		ind(depth)
+		b.WriteByte('}')
+	default:
+		v.render(b)
 	}
 }
 
